@@ -1,0 +1,24 @@
+//go:build verif
+
+package responseassembler
+
+import (
+	"github.com/libp2p/go-libp2p/core/peer"
+)
+
+// VerifTrackerSizes reports the sizes of the per-peer link tracking maps for
+// the verification harness: number of tracked dedup keys, alternate trackers,
+// per-request counters, and whether the default tracker is empty. ok is false
+// when no tracker exists for the peer.
+func (ra *ResponseAssembler) VerifTrackerSizes(p peer.ID) (dedupKeys, altTrackers, counters int, defaultEmpty bool, ok bool) {
+	for _, cp := range ra.ConnectedPeers() {
+		if cp != p {
+			continue
+		}
+		plt := ra.GetProcess(p).(*peerLinkTracker)
+		plt.linkTrackerLk.RLock()
+		defer plt.linkTrackerLk.RUnlock()
+		return len(plt.dedupKeys), len(plt.altTrackers), len(plt.blockSentCount) + len(plt.skipFirstBlocks), plt.linkTracker.Empty(), true
+	}
+	return 0, 0, 0, true, false
+}
